@@ -40,6 +40,7 @@ def run_crash(ctx, ok_drv, mix, args, prop_of_oracle):
             cov["distinct_recovered_states"] = cov.get("distinct_recovered_states", 0) + int(m["distinct-recovered-states"])
             cov["evaluations"] += int(m["checked"])
             cov["distinct_nontrivial"] += int(m["distinct-recovered-states"])
+            cov["second_crash_images"] = cov.get("second_crash_images", 0) + int(m.get("second-crash-images", 0))
         elif l.startswith("# ORACLE "):
             f = l.split(" ", 4)
             label, key, text = f[2], f[3], f[4] if len(f) > 4 else ""
